@@ -107,6 +107,22 @@ func init() {
 				}
 			}
 		}
+		// the default block of a contentOf of an undefined name is rendered where it stands and is NOT
+		// stored: a later contentOf of the same name renders its own default, and fails without one
+		for _, t := range [][2]string{
+			{`<%= contentOf("title") { %>first <%= who %><% } %>|<%= contentOf("title", {who: "bob"}) { %>second <%= who %><% } %>`, "first amy|second bob"},
+			{`<%= contentOf("side") { %>dflt<% } %><%= contentOf("side") %>`, "ERR"}, {`<%= contentOf("side") { %>d1<% } %>|<%= contentOf("side") { %>d2<% } %>|<%= contentOf("side") { %>d3<% } %>`, "d1|d2|d3"},
+			{`<%= for (i) in [1, 2] { %><%= contentOf("row") { %>r<%= i %><% } %>,<% } %>`, "r1,r2,"}, {`<%= partial("navp", {layout: "navlay"}) %>`, "[laynav|P|footnav]"},
+			{`<%= contentOf("late") { %>dflt<% } %><% contentFor("late") { %>stored<% } %>|<%= contentOf("late") { %>dflt2<% } %>`, "dflt|stored"},
+			{`<%= if (true) { %><%= contentOf("inif") { %>a<% } %><% } %><%= contentOf("inif") { %>b<% } %>`, "ab"},
+		} {
+			c := RCase{Tmpl: t[0], Binds: append(c17binds(), Bind{"who", vStr("amy")}), Parts: map[string]string{"navp": `P|<%= contentOf("nav") { %>footnav<% } %>`, "navlay": `[<%= contentOf("nav") { %>laynav<% } %>|<%= yield %>]`}}
+			o := e.addRenderCase("default-block-not-stored", c)
+			e.Distinct(t[0])
+			if (t[1] == "ERR") != (o.Class == "ERR") || (t[1] != "ERR" && o.Out != t[1]) {
+				e.Violate("c17-content", fmt.Sprintf("%s rendered %q (%s %s), the inline form gives %q", t[0], o.Out, o.Class, firstLine(o.Msg), t[1]), map[string]interface{}{"case": c, "observed": o})
+			}
+		}
 		// data whose value is nil binds the name too: it hides an outer variable of that name, exactly
 		// as a let would in the inline form
 		{
